@@ -9,6 +9,8 @@ import (
 	"fmt"
 	"strings"
 	"time"
+
+	d "github.com/ostafen/clover/v2/document"
 )
 
 // bake the ids the implementation generated into the documents, so that a history can be replayed exactly
@@ -154,6 +156,12 @@ func runFaultStream(seed int64, n int, out, backendSpec, tier string) *RunReport
 				r0 := t0.exec(env)
 				ncalls := int(env.st.calls)
 				after0, _ := dumpStore(env.st.inner)
+				if errKind(r0) != "e0" {
+					if !withDeadline(5*time.Second, func() { env.db.CreateCollection("zz-followup") }) {
+						env.wedged = true
+						f.failf("handle wedged after %s returned %s on %s: a follow-up write did not return within 5s; op %s", target.Kind, errKind(r0), be, t0.term())
+					}
+				}
 				env.destroy()
 				evals++
 				cs.Add(fmt.Sprintf("(HFault %s %s (-1) %s %s %d)", baseTerm, t0.term(), Tstr(r0), Tstr(after0), ncalls), hi == 0 && len(cs.Sample) < 6)
@@ -212,13 +220,48 @@ func runFaultStream(seed int64, n int, out, backendSpec, tier string) *RunReport
 						}
 					})
 					if !ok {
-						f.failf("handle wedged after %s failed at call %d (%s) on %s", target.Kind, k, what, be)
+						env.wedged = true
+						f.failf("handle wedged after %s failed at call %d (%s) on %s: a follow-up write did not return within 5s; op %s", target.Kind, k, what, be, tk.term())
 					}
 					if len(samples) < 3 && k == ncalls/2 {
 						samples = append(samples, map[string]interface{}{"op": clip(tk.term(), 300), "failing_call": k, "call_kind": what, "of_calls": ncalls, "impl_result": Tstr(rk), "backend": be})
 					}
 					env.destroy()
 				}
+			}
+		}
+	}
+	// a large batch with the offending document far from the start: nothing of it may stay (direct oracle only)
+	for _, be := range backendsOf(backendSpec) {
+		for _, size := range []int{600, 1300} {
+			for variant := 0; variant < 2; variant++ {
+				env, err := newEnv(be)
+				if err != nil {
+					continue
+				}
+				env.db.CreateCollection("big")
+				env.db.CreateIndex("big", "a")
+				env.db.Insert("big", d.NewDocumentOf(scaleDoc(3)))
+				before, _ := dumpStore(env.st.inner)
+				docs := make([]*d.Document, size)
+				for i := range docs {
+					docs[i] = d.NewDocumentOf(scaleDoc(10 + i))
+				}
+				if variant == 0 {
+					docs[size-7] = d.NewDocumentOf(scaleDoc(3)) // duplicate of a stored document
+				} else {
+					docs[size-7].Set("_id", "not-a-uuid")
+				}
+				err = env.db.Insert("big", docs...)
+				after, _ := dumpStore(env.st.inner)
+				evals++
+				if err == nil {
+					f.failf("Insert of %d documents with an offending document at position %d succeeded on %s", size, size-7, be)
+				} else if Tstr(before) != Tstr(after) {
+					f.failf("Insert of %d documents failed (%v) at position %d but left %d keys behind (%d before) on %s", size, err, size-7, len(after.([]T)), len(before.([]T)), be)
+				}
+				distinct[fmt.Sprintf("bigbatch/%d/%d", size, variant)] = true
+				env.destroy()
 			}
 		}
 	}
